@@ -382,12 +382,28 @@ pub fn run(tier: Tier) -> i32 {
         ("default-position-ellipse", "<ellipse rxy=\"5 3\" dxy=\"2\"/>".into(), "<ellipse cx=\"2\" cy=\"2\" rx=\"5\" ry=\"3\"/>".into()),
         ("default-position-ellipse-one-axis", "<ellipse cx=\"5\" rxy=\"5 3\" dy=\"1\"/>".into(), "<ellipse cx=\"5\" cy=\"1\" rx=\"5\" ry=\"3\"/>".into()),
         ("resize-rect-start-end", "<rect x=\"1\" x2=\"11\" y=\"0\" y2=\"10\" dwh=\"2\"/>".into(), "<rect x=\"1\" y=\"0\" width=\"12\" height=\"12\"/>".into()),
+        // second review round: one axis by two positions, the other by its length only (position defaulted)
+        ("partial/rect-start-end+height", "<rect x=\"1\" x2=\"5\" height=\"3\"/>".into(), "<rect x=\"1\" width=\"4\" height=\"3\"/>".into()),
+        ("partial/rect-centre-end+height", "<rect cx=\"3\" x2=\"5\" height=\"3\"/>".into(), "<rect x=\"1\" width=\"4\" height=\"3\"/>".into()),
+        ("partial/rect-width+start-end", "<rect width=\"3\" y=\"1\" y2=\"5\"/>".into(), "<rect width=\"3\" y=\"1\" height=\"4\"/>".into()),
+        ("partial/ellipse-start-end+ry", "<ellipse x=\"1\" x2=\"5\" ry=\"3\"/>".into(), "<ellipse cx=\"3\" rx=\"2\" ry=\"3\"/>".into()),
+        // a longhand from <defaults> does not beat the element's own shorthand
+        ("defaults/width-vs-wh", "<defaults><rect width=\"5\"/></defaults><rect xy=\"1\" wh=\"3 4\"/>".into(), "<defaults><rect width=\"5\"/></defaults><rect x=\"1\" y=\"1\" width=\"3\" height=\"4\"/>".into()),
+        ("defaults/x-vs-xy", "<defaults><rect x=\"5\"/></defaults><rect xy=\"1 2\" wh=\"3 4\"/>".into(), "<defaults><rect x=\"5\"/></defaults><rect x=\"1\" y=\"2\" width=\"3\" height=\"4\"/>".into()),
+        ("defaults/cx-vs-cxy", "<defaults><circle cx=\"5\"/></defaults><circle cxy=\"1 2\" r=\"3\"/>".into(), "<defaults><circle cx=\"5\"/></defaults><circle cx=\"1\" cy=\"2\" r=\"3\"/>".into()),
+        ("defaults/rx-vs-rxy", "<defaults><ellipse rx=\"5\"/></defaults><ellipse cxy=\"1 2\" rxy=\"3 4\"/>".into(), "<defaults><ellipse rx=\"5\"/></defaults><ellipse cx=\"1\" cy=\"2\" rx=\"3\" ry=\"4\"/>".into()),
+        ("defaults/x2-vs-xy2", "<defaults><line x2=\"50\"/></defaults><line xy1=\"1 2\" xy2=\"3 4\"/>".into(), "<defaults><line x2=\"50\"/></defaults><line x1=\"1\" y1=\"2\" x2=\"3\" y2=\"4\"/>".into()),
+        ("defaults/dx-vs-dxy", "<defaults><rect dx=\"5\"/></defaults><rect xy=\"1 2\" wh=\"3 4\" dxy=\"1 1\"/>".into(), "<defaults><rect dx=\"5\"/></defaults><rect xy=\"1 2\" wh=\"3 4\" dx=\"1\" dy=\"1\"/>".into()),
+        // a two-value shorthand is split whatever its values look like
+        ("split/wh-two-references", "<circle id=\"a\" cxy=\"100 100\" rxy=\"15 20\"/><rect x=\"0\" y=\"0\" wh=\"#a~h #a~w\"/>".into(), "<circle id=\"a\" cxy=\"100 100\" rxy=\"15 20\"/><rect x=\"0\" y=\"0\" width=\"#a~h\" height=\"#a~w\"/>".into()),
+        ("split/xy-two-references", "<ellipse id=\"a\" cxy=\"25 40\" rxy=\"15 20\"/><rect xy=\"#a~x2 #a~y2\" wh=\"3\"/>".into(), "<ellipse id=\"a\" cxy=\"25 40\" rxy=\"15 20\"/><rect x=\"#a~x2\" y=\"#a~y2\" wh=\"3\"/>".into()),
         ("resize-rect-centre-length", "<rect cx=\"6\" width=\"10\" cy=\"5\" height=\"10\" dwh=\"2\"/>".into(), "<rect cx=\"6\" width=\"12\" cy=\"5\" height=\"12\"/>".into()),
     ];
     let st = run_space(eq_pairs.len(), |i| {
         let (name, a, b) = &eq_pairs[i];
         let (oa, ob) = (run_str(a, &Cfg::plain()), run_str(b, &Cfg::plain()));
-        let shape = a[1..].split(' ').next().unwrap_or("rect");
+        // (the element compared is the last one written)
+        let shape = a.rsplit('<').next().and_then(|t| t.split(' ').next()).unwrap_or("rect");
         let attrs = |o: &Outcome| match o {
             Outcome::Ok(x) => element_attrs(x, shape).map(|mut v| {
                 v.sort();
